@@ -104,12 +104,9 @@ def walk (bal : Float → Bal Float (List Float)) (eps tmin : Float) :
 def walkTag (f : List String) : String :=
   "".intercalate (["g-", "g+", "g0", "l-", "l+", "l0", "W", "v", "^"].filter f.contains)
 
-def step (_ : Unit) (w : List String) : Unit × String :=
-  let raw := w.toArray
-  let a := raw.map fl
+/-- the kernel-level ops; `raw`/`a` = tokens of the line and their values -/
+def answerCore (op : String) (raw : Array String) (a : Array Float) : Unit × String :=
   let g := getF a
-  let op := match w.head? with
-    | some "hhex" => "hhe" | some "cellx" => "cell" | some "tempx" => "temp" | some "balx" => "bal" | some o => o | none => ""
   match op with
   | "h0" =>
     let r := h0HydrogenB (g 1) (g 2) (g 3)
@@ -181,5 +178,54 @@ def step (_ : Unit) (w : List String) : Unit × String :=
   | "newcell" => ((), "newcell")
   | "abort" => ((), "abort #impl-abort-in-prep")
   | _ => ((), "bad-op")
+
+/-- tokens `k..` of the line, re-indexed so that token `k + i` becomes token `i + 1`, with the first
+two (jfac, hfac of the kernel-level op) replaced by the wrapper's values -/
+def shifted (raw : Array String) (a : Array Float) (k : Nat) (jfac hfac : Option Float) :
+    Array String × Array Float :=
+  let r := raw.extract (k - 1) raw.size
+  let b := a.extract (k - 1) a.size
+  let b := match jfac with | some x => b.set! 1 x | none => b
+  let b := match hfac with | some x => b.set! 2 x | none => b
+  (r, b)
+
+def retag (s : String) (old new : String) : String :=
+  let s := if s.startsWith old then new ++ (s.drop old.length).toString else s
+  s.replace (" #" ++ old) (" #" ++ new)
+
+def step (_ : Unit) (w : List String) : Unit × String :=
+  let raw := w.toArray
+  let a := raw.map fl
+  let g := getF a
+  let op := match w.head? with
+    | some "hhex" => "hhe" | some "cellx" => "cell" | some "tempx" => "temp" | some "balx" => "bal" | some o => o | none => ""
+  match op with
+  | "sgcell" =>
+    -- sgcell L tw sx sy sz nx ny nz | n T AHe mean[14] a[14] ct[19]   (cell tokens 2.. at 9..)
+    let V := cellVolume (g 3) (g 4) (g 5) (g 6) (g 7) (g 8)
+    let (r, b) := shifted raw a 8 (some (jfacCell (g 1) (g 2) V)) none
+    let (_, s) := answerCore "cell" r b
+    ((), retag s "cell" "sgcell")
+  | "sgion" =>
+    -- sgion mode L0 L tw sx sy sz nx ny nz | n T AHe mean[14] a[14] ct[19]
+    -- TemperatureCalculator(L0); update_luminosity(L); ionization-only branch of
+    -- calculate_temperature(loop, totweight, subgrid): mode 0 = temperature calculation off,
+    -- mode 1 = on but loop (1) <= minimum number of iterations (5)
+    let mode := nat! (raw.getD 1 "0")
+    let l := updateLuminosity (g 3) (⟨g 2, g 2⟩ : Lums Float)
+    let L := lumUsed (mode == 1) 1 5 l
+    let V := cellVolume (g 5) (g 6) (g 7) (g 8) (g 9) (g 10)
+    let (r, b) := shifted raw a 10 (some (jfacCell L (g 4) V)) none
+    let (_, s) := answerCore "cell" r b
+    ((), retag s "cell" "sgion")
+  | "sgtemp" =>
+    -- sgtemp L0 L tw sx sy sz nx ny nz | <tokens 1.. of a temp line>  (temperature branch, loop 1 > 0)
+    let l := updateLuminosity (g 2) (⟨g 1, g 1⟩ : Lums Float)
+    let L := lumUsed true 1 0 l
+    let V := cellVolume (g 4) (g 5) (g 6) (g 7) (g 8) (g 9)
+    let (r, b) := shifted raw a 10 (some (jfacCell L (g 3) V)) (some (hfacCell L (g 3) V))
+    let (_, s) := answerCore "temp" r b
+    ((), retag s "temp" "sgtemp")
+  | _ => answerCore op raw a
 
 def main : IO Unit := runDriver step ()
